@@ -190,9 +190,32 @@ def childIndex (t : Tree) (par child : Path) : Option Nat :=
   if parent child != some par then none
   else (children t par).findIdx? (fun n => n == child)
 
-/-- `reverse_children`: `children.rev().take_while(is_normal)` -/
-def reverseChildren (t : Tree) (p : Path) : List Path :=
-  ((allChildren t p).reverse.takeWhile itemNormal).map (·.1)
+/-- indextree 4.7.2 (the version `/repo/Cargo.lock` pins) `Children::next_back`, i.e. what
+    `children.rev()` yields, AS SHIPPED: `DoubleEndedIter::next_back` stores the new position in
+    `head` instead of `tail`,
+      `(Some(head), Some(tail)) if head == tail => { head = None; tail = None; Some(head) }`
+      `(_, Some(tail)) => { self.0.head = next_back(&arena[tail]); Some(tail) }`
+    so with two or more children it yields the last child for ever. The first `limit` items. -/
+def childrenNextBack : Nat → Option Path → Option Path → List Path
+  | 0, _, _ => []
+  | _ + 1, _, none => []
+  | limit + 1, some head, some tail =>
+    if head == tail then [head]
+    else tail :: childrenNextBack limit (internalPreviousSibling tail) (some tail)
+  | limit + 1, none, some tail =>
+    tail :: childrenNextBack limit (internalPreviousSibling tail) (some tail)
+
+/-- What `children.rev()` is by the documented contract of a double-ended iterator. -/
+def childrenRevContract (t : Tree) (p : Path) : List Path := ((allChildren t p).map (·.1)).reverse
+
+/-- `reverse_children`: `children.rev().take_while(is_normal)`, first `limit` items (the iterator
+    is infinite when the node has two or more raw children and the last one is normal). -/
+def reverseChildren (t : Tree) (limit : Nat) (p : Path) : List Path :=
+  (childrenNextBack limit (internalFirstChild t p) (internalLastChild t p)).takeWhile (isNormalAt t)
+
+/-- `reverse_children` if `children.rev()` kept its contract. -/
+def reverseChildrenContract (t : Tree) (p : Path) : List Path :=
+  (childrenRevContract t p).takeWhile (isNormalAt t)
 
 /-- `descendants`: arena descendants filtered by `normal_filter`. -/
 def descendants (t : Tree) (p : Path) : List Path := (arenaDescendants t p).filter (isNormalAt t)
